@@ -155,6 +155,8 @@ PLANS = {
             S("c12_resend", 900, 27000),
             S("c12_noretry", 700, 21000),
             S("c12_latepeer", 500, 15000),  # request made before any replier is reachable, first copies ignored (scenarios/c12c_latepeer.cc)
+            S("c12_tworep", 400, 12000),    # two repliers: the connection of the timed retransmission is dropped (scenarios/c12d_tworep.cc)
+            S("c12_noise", 600, 18000),     # retransmission while many other time-outs expire in the same instants
             S("c12_mixed", 600, 18000),    # contexts with different resend times on one socket (scenarios/c12b_mixed.cc)
         ],
         "assumptions": [
@@ -260,7 +262,8 @@ PLANS = {
             S("c15_nonblock", 1500, 30000),
             S("c15_conc", 1500, 30000, label="avoid_known", avoid=130),
             S("c15_conc", 400, 8000),
-            S("c15_pipelined", 800, 24000),  # REP against a raw REQ peer that pipelines requests and reads no replies (scenarios/c15b_pipelined.cc)
+S("c15_reqqueue", 400, 12000),   # REQ with requests queued before the connection exists, raw peer that never reads (scenarios/c15c_reqqueue.cc)
+                        S("c15_pipelined", 800, 24000),  # REP against a raw REQ peer that pipelines requests and reads no replies (scenarios/c15b_pipelined.cc)
         ],
         "assumptions": ["'library quiescent' is realised by sim_quiesce (no runnable thread, nothing in flight, no timer due within 3 ms)",
                         "clause (e) 'does the work when it can' is asserted only in states where the message-accounting model is exact "
